@@ -149,6 +149,12 @@ def cases(draw, want_logs=False):
         case['outs'] = [o for o in case['outs'] if len(o) < 200][:3]
         case['stall'] = 0.3
         case['storm'] = True
+    if want_logs and text_mode and esc_mode not in ('absent', 'none') and draw(st.integers(0, 2)) == 0:
+        # a character split across two interact() sessions: its first bytes are the last thing the child prints
+        # in the first session, the rest opens its output in the second one
+        case['outs'] = case['outs'][:3] + [b'k\xe2\x82']
+        case['second_prefix'] = b'\xac'
+        case['child_exits'] = False
     if want_logs:
         case['logs'] = sorted(draw(st.sets(st.sampled_from(['logfile', 'logfile_read', 'logfile_send']), min_size=1, max_size=3)))
     return case
@@ -237,7 +243,7 @@ def check_case(case, col=None, logs=None):
     else:
         if esc_hit:
             # a second interact() session follows the first one
-            actions += [['recuntil', dialogue.trig(1).hex()], ['w', b'SECOND-OUTPUT'.hex()]]
+            actions += [['recuntil', dialogue.trig(1).hex()], ['w', (case.get('second_prefix', b'') + b'SECOND-OUTPUT').hex()]]
         actions += [['recuntil', dialogue.END.hex()]]
     um, us = os.openpty()
     reclogs = {}
@@ -299,6 +305,8 @@ def check_case(case, col=None, logs=None):
             seen = []
             # start the child's output script (trigger written directly, not through interact)
             os.write(child.child_fd, dialogue.trig(0))
+            if case.get('second_prefix'):
+                drain(um, seen, 0.05)        # let the first session display the child's output (ending inside a character)
             # type
             for p in case['pieces']:
                 if not th.is_alive():
@@ -360,7 +368,7 @@ def check_case(case, col=None, logs=None):
                 while time.time() - t0 < 10 and (termios.tcgetattr(us)[3] & termios.ICANON) and th2.is_alive():
                     time.sleep(0.002)
                 os.write(child.child_fd, dialogue.trig(1))
-                second = b'SECOND-OUTPUT'
+                second = case.get('second_prefix', b'') + b'SECOND-OUTPUT'
                 all_out = pending + (out_f(b''.join(case['outs']) + second) if out_f else b''.join(case['outs']) + second)
                 t0 = time.time()
                 while time.time() - t0 < 5 and len(b''.join(seen)) < len(all_out):
